@@ -67,7 +67,7 @@ GUARDS = [
 # guards that belong to a macro region / are decided by the token class and are not conditions of the row
 DROP_GUARDS = [
     r"any_not_whitespace\(p2\.1\)", r"empty_set\(", r"loop\(", r"self\.sink\.elem_name\(item\)", r"special_tag\(", r"self\.pending_table_text", r"self\.foster_parent_in_body\(Characters",
-    r"p2\.0\.get_attribute\(", r"self\.should_attach_declarative_shadow", r"self\.attach_declarative_shadow",
+    r"p2\.0\.get_attribute\(", r"extract_a_character_encoding_from_a_meta_element\(", r"self\.should_attach_declarative_shadow", r"self\.attach_declarative_shadow",
     r"self\.sink\.same_node\(self\.current_node\(\),self\.form_elem\.take\(\)\.0\)",  # only decides a parse error
 ]
 
